@@ -31,9 +31,13 @@ def generate_lib():
     errors = [v for k, v in kv if k == "file_error"]
     if errors:
         raise TranslateError("unparsable source files: %s" % errors)
-    arms, structlits, sdefs, sfields = {}, [], {}, {}
+    arms, structlits, sdefs, sfields, armattrs = {}, [], {}, {}, {}
     for k, v in kv:
-        if k == "arm":
+        if k == "armattrs":
+            parts = v.split(" @@ ")
+            parts += [""] * (3 - len(parts))
+            armattrs[(parts[0], nows(parts[1]))] = [a.strip() for a in parts[2].split(" ;; ") if a.strip()]
+        elif k == "arm":
             parts = v.split(" @@ ")
             parts += [""] * (4 - len(parts))
             arms.setdefault(parts[0], []).append((parts[1].strip(), parts[2].strip(), " @@ ".join(parts[3:]).strip()))
@@ -54,8 +58,10 @@ def generate_lib():
     if len(key) != 1:
         raise TranslateError("into_response.rs: the match of IntoMsg::into_msg was not found (%s)" % key)
     table = []
+    arm_feats = []
     default_seen = False
     for pat, guard, body in arms[key[0]]:
+        feats = cfg_features(armattrs.get((key[0], nows(pat)), []), "into_msg arm %s" % pat[:40])
         if pat == "_":
             default_seen = True
             if "Err" not in body:
@@ -65,6 +71,7 @@ def generate_lib():
         if not m or guard:
             raise TranslateError("into_msg: unexpected arm pattern %s" % pat)
         variant = m.group(1)
+        arm_feats.append((variant, feats))
         if nows(body) == nows(pat):
             table.append((variant, "keep"))
         elif "Err" in body and "CosmosMsg" not in body:
@@ -102,6 +109,8 @@ def generate_lib():
     if not m:
         raise TranslateError("types.rs: Remote's schema_name is not a string literal")
     schema_name = m.group(1)
+    variant_feats = cosmos_variant_features()
+    feat_table = sylvia_feature_table()
     cs = common.coq_string
     text = "\n".join([
         "(* GENERATED on every run by py/verif/translate.py from /repo/sylvia/src. Do not edit. *)",
@@ -113,8 +122,72 @@ def generate_lib():
         "Definition remote_fields : list (string * string * list string) :=",
         "  " + common.coq_list(["(%s, %s, %s)" % (cs(n), cs(t), common.coq_list([cs(a) for a in attrs])) for n, t, attrs in rfields]) + ".",
         "Definition remote_type_attrs : list string := " + common.coq_list([cs(a) for a in rattrs]) + ".",
-        "Definition remote_schema_name : string := %s." % cs(schema_name), ""])
+        "Definition remote_schema_name : string := %s." % cs(schema_name),
+        "(* cfg(feature = ..) of each arm of IntoMsg::into_msg (sylvia feature names) *)",
+        "Definition into_msg_arm_features : list (string * list string) :=",
+        "  " + common.coq_list(["(%s, %s)" % (cs(v), common.coq_list([cs(f) for f in fs])) for v, fs in arm_feats]) + ".",
+        "(* the variants of cosmwasm_std::CosmosMsg with the cosmwasm-std features that define them (from the source of the",
+        "   cosmwasm-std version pinned in Cargo.lock) *)",
+        "Definition cosmos_variant_features : list (string * list string) :=",
+        "  " + common.coq_list(["(%s, %s)" % (cs(v), common.coq_list([cs(f) for f in fs])) for v, fs in variant_feats]) + ".",
+        "(* sylvia/Cargo.toml [features]: name, the sylvia features it implies, the cosmwasm-std features it enables *)",
+        "Definition sylvia_features : list (string * (list string * list string)) :=",
+        "  " + common.coq_list(["(%s, (%s, %s))" % (cs(n), common.coq_list([cs(x) for x in imp]), common.coq_list([cs(x) for x in fwd]))
+                                for n, imp, fwd in feat_table]) + ".", ""])
     return text
+
+
+def cfg_features(attrs, what):
+    """features required by a list of attributes: only `#[cfg(feature = "x")]` is understood; `allow`/`doc` are ignored"""
+    feats = []
+    for a in attrs:
+        t = nows(a)
+        m = re.fullmatch(r'#\[cfg\(feature="([\w-]+)"\)\]', t)
+        if m:
+            feats.append(m.group(1))
+        elif t.startswith("#[cfg"):
+            raise TranslateError("%s: unsupported cfg attribute %s" % (what, a))
+    return feats
+
+
+def cosmwasm_std_src():
+    lock = open(os.path.join(common.REPO, "Cargo.lock")).read()
+    m = re.search(r'name = "cosmwasm-std"\nversion = "([^"]+)"', lock)
+    if not m:
+        raise TranslateError("Cargo.lock: cosmwasm-std not found")
+    import glob
+    cands = glob.glob(os.path.expanduser("~/.cargo/registry/src/*/cosmwasm-std-%s/src/results/cosmos_msg.rs" % m.group(1)))
+    if not cands:
+        raise TranslateError("source of cosmwasm-std %s not found in the cargo registry" % m.group(1))
+    return cands[0]
+
+
+def cosmos_variant_features():
+    res = common.probe_run([("e", "ast", "", cosmwasm_std_src())], shards=1, tag="cwstd")
+    out = []
+    for k, v in res.get("e", []):
+        if k == "enumv":
+            parts = v.split(" @@ ")
+            parts += [""] * (3 - len(parts))
+            if parts[0].strip() == "CosmosMsg":
+                out.append((parts[1].strip(), cfg_features([a for a in parts[2].split(" ;; ") if a.strip()], "CosmosMsg::" + parts[1])))
+    if not out:
+        raise TranslateError("cosmwasm-std: enum CosmosMsg not found")
+    return out
+
+
+def sylvia_feature_table():
+    import tomllib
+    with open(os.path.join(common.REPO, "sylvia", "Cargo.toml"), "rb") as f:
+        feats = tomllib.load(f).get("features", {})
+    out = []
+    for name, items in feats.items():
+        if name == "default":
+            continue
+        implied = [i for i in items if "/" not in i and not i.startswith("dep:")]
+        fwd = [i.split("/", 1)[1] for i in items if i.startswith("cosmwasm-std/")]
+        out.append((name, implied, fwd))
+    return out
 
 
 def write_genlib(text):
